@@ -318,3 +318,141 @@ def rule_pivotshape(P, deep=False) -> RuleResult:
             res.ok({'case': label, 'remaining_columns': nother, 'probes': ['source', 'keys sorted distinct', 'names', 'datatypes', 'sorted before '
                     'grouping', 'grouping by first column', 'NULL fill', 'block placement', 'one row per group']})
     return res
+
+
+# ----------------------------------------------------------------------
+# R-PIVOTFLOW (C15): the compiled pivot is the compiled query plus the two resolved columns, first then second
+
+def rule_pivotflow(P) -> RuleResult:
+    """_compile_select on terms, with the clause resolvers stubbed: when PIVOT BY resolves to the columns (i, j) the statement compiles
+    to EvalPivot(the compiled query, [i, j]) - the same two positions in the order PIVOT BY names them (the first one labels the rows, the
+    second one the column blocks) - and to the plain query when there is no PIVOT BY."""
+    res = RuleResult('R-PIVOTFLOW')
+    res.exhaustive = True
+    comp = P.cls('beanquery.compiler', 'Compiler')
+    fi = comp.methods.get('_compile_select')
+    if fi is None:
+        raise AnalysisError('anchor vanished: Compiler._compile_select')
+    SELF, NODE = Sym('COMPILER'), Sym('SELECT')
+    FIRST, SECOND = Sym('PIVOT_ROW_COLUMN'), Sym('PIVOT_BLOCK_COLUMN')
+    for with_pivot in (True, False):
+        made = []
+
+        def on_call(fname, fval, recv, args, kwargs, ex, node):
+            f = str(fname).split('.')[-1]
+            if f == '_compile_from':
+                return Sym('C_FROM')
+            if f == '_compile_targets':
+                return SList([Sym('TARGET1'), Sym('TARGET2'), Sym('TARGET3')])
+            if f == '_compile':
+                return Sym('C_WHERE')
+            if f == 'is_aggregate':
+                return False
+            if f == '_compile_group_by':
+                return T('tuple', (SList([]), SList([0, 1]), None))
+            if f == '_compile_order_by':
+                return T('tuple', (SList([]), None))
+            if f == '_compile_pivot_by':
+                return SList([FIRST, SECOND]) if with_pivot else None
+            if f == 'EvalQuery':
+                return T('new', ('EvalQuery', ()))
+            if f == 'EvalPivot':
+                made.append((tuple(args), tuple(kwargs)))
+                return T('new', ('EvalPivot', (len(made) - 1,)))
+            return NotImplemented
+        def on_attr(base, attr, ex):
+            if attr == 'is_aggregate' and isinstance(base, Sym) and base.name.startswith('TARGET'):
+                return base.name == 'TARGET3'
+            return NotImplemented
+        n = 0
+        for p in Engine(P, on_call=on_call, on_attr=on_attr).paths(fi, {'self': SELF, fi.params[1]: NODE}):
+            if p.outcome != 'return':
+                continue
+            n += 1
+            v = p.value
+            if not with_pivot:
+                if v == T('new', ('EvalQuery', ())):
+                    res.ok({'pivot_by': 'absent', 'compiles_to': 'the query'})
+                else:
+                    res.fail(fi.fq, 'pivotflow:plain', f'without PIVOT BY the statement must compile to the query itself; it gives `{show(v)[:80]}`', loc(fi))
+                continue
+            if not (isinstance(v, T) and v.op == 'new' and v.args[0] == 'EvalPivot'):
+                res.fail(fi.fq, 'pivotflow:node', f'with PIVOT BY the statement must compile to EvalPivot(query, columns); it gives `{show(v)[:80]}`', loc(fi))
+                continue
+            args, kw = made[v.args[1][0]]
+            vals = list(args) + [x for _, x in kw]
+            q = [x for x in vals if x == T('new', ('EvalQuery', ()))]
+            lists = [x for x in vals if isinstance(x, SList)] + [SList(list(x.args)) for x in vals if isinstance(x, T) and x.op == 'tuple']
+            good = len(q) == 1 and len(lists) == 1 and not lists[0].opaque_tail and not lists[0].tail and list(lists[0].items) == [FIRST, SECOND]
+            if good:
+                res.ok({'pivot_by': 'two resolved columns', 'compiles_to': 'EvalPivot(query, [first, second])'})
+            else:
+                res.fail(fi.fq, 'pivotflow:columns', f'PIVOT BY resolved to [first, second] must reach EvalPivot as exactly these two positions in '
+                         f'this order (the first labels the rows, the second the column blocks); EvalPivot is given '
+                         f'`{", ".join(show(x)[:90] for x in vals)}`', loc(fi))
+        if n == 0:
+            raise AnalysisError(f'{fi.fq}: no returning path on terms')
+    return res
+
+
+# ----------------------------------------------------------------------
+# R-SELECTNODE (C07): every SELECT compiles to a query node of its own over its own targets
+
+def rule_selectnode(P) -> RuleResult:
+    """_compile_select on terms for the barest statement (no FROM expression, no WHERE, GROUP BY, ORDER BY, PIVOT BY; LIMIT and DISTINCT
+    left symbolic) and for a full one, on every kind of table (the isinstance tests on self.table fork): every path that accepts the
+    statement returns the EvalQuery built here, and that node is given this statement's compiled targets - the objects that carry the
+    output names and the visibility of this SELECT, not those of a subquery or of another statement."""
+    res = RuleResult('R-SELECTNODE')
+    res.exhaustive = True
+    comp = P.cls('beanquery.compiler', 'Compiler')
+    fi = comp.methods.get('_compile_select')
+    if fi is None:
+        raise AnalysisError('anchor vanished: Compiler._compile_select')
+    SELF, NODE = Sym('COMPILER'), Sym('SELECT')
+    TG = [Sym('TARGET1'), Sym('TARGET2')]
+    for bare in (True, False):
+        made = []
+
+        def on_call(fname, fval, recv, args, kwargs, ex, node):
+            f = str(fname).split('.')[-1]
+            if f == '_compile_from':
+                return None if bare else Sym('C_FROM')
+            if f == '_compile_targets':
+                return SList(list(TG))
+            if f == '_compile':
+                return None if bare else Sym('C_WHERE')
+            if f == 'is_aggregate':
+                return False
+            if f == '_compile_group_by':
+                return T('tuple', (SList([]), None, None))
+            if f == '_compile_order_by':
+                return T('tuple', (SList([]), None if bare else Sym('ORDER_SPEC')))
+            if f == '_compile_pivot_by':
+                return None
+            if f == 'EvalQuery':
+                made.append([list(a.items) if isinstance(a, SList) and not a.opaque_tail else a for a in list(args) + [v for _, v in kwargs]])
+                return T('new', ('EvalQuery', (len(made) - 1,)))
+            return NotImplemented
+
+        def on_attr(base, attr, ex):
+            if base == NODE and attr in ('pivot_by', 'group_by', 'order_by', 'where_clause'):
+                return None
+            return NotImplemented
+        n = 0
+        for p in Engine(P, on_call=on_call, on_attr=on_attr).paths(fi, {'self': SELF, fi.params[1]: NODE}):
+            if p.outcome != 'return':
+                continue
+            n += 1
+            v = p.value
+            tests = [f'{show(t)[:50]} is {o}' for t, o in p.decisions]
+            if isinstance(v, T) and v.op == 'new' and v.args[0] == 'EvalQuery' and TG in made[v.args[1][0]]:
+                res.ok({'statement': 'bare SELECT' if bare else 'SELECT with FROM, WHERE, ORDER BY', 'conditions_on_the_path': tests,
+                        'compiles_to': 'EvalQuery(..., this statement\'s targets, ...)'})
+            else:
+                res.fail(fi.fq, 'selectnode:foreign', f'{"a bare SELECT" if bare else "a SELECT"}{" when " + " and ".join(tests) if tests else ""} compiles to '
+                         f'`{show(v)[:80]}` instead of a query node over its own compiled targets: the output names, their order and the '
+                         f'visibility flags of this SELECT list are not the ones the result is described with', loc(fi))
+        if n == 0:
+            raise AnalysisError(f'{fi.fq}: no returning path on terms')
+    return res
